@@ -9,6 +9,7 @@
 -/
 import Zed.Proofs.LakeSorted
 import Zed.Proofs.LakeRefine
+import Zed.Proofs.LakeSeek
 namespace Zed.Props.C14
 open Zed.Lake
 
@@ -158,6 +159,22 @@ theorem object_meta_correct (cfg : Cfg K V) (L : KeyLaws cfg) (hk : cfg.mkey = c
       simp only [kvle, hd, if_true] at this
       simpa [hk] using ⟨this.2, this.1⟩
   · cases h
+
+omit [DecidableEq V] in
+/-- **seek_entries_cover.**  For the key-sorted value sequence `vals` of an object, any seek
+    stride and any key sizes, the seek index `data.Writer` writes (`seekSegs`: each entry with the
+    values it covers) partitions the object: the covered pieces, in order, are exactly `vals`;
+    `val_off` / `val_cnt` chain from 0 without gaps, overlaps or empty entries; and the key of
+    every covered value lies in the entry's `[min, max]` (ascending and descending pools).
+    This is the hypothesis "seek-entry bounds bound the keys they cover" of C16's `seek_sound`.
+    Guard `cfg.mkey = cfg.key` as for `object_meta_correct` (false for pool key `this`). -/
+theorem seek_entries_cover (cfg : Cfg K V) (L : KeyLaws cfg) (hk : cfg.mkey = cfg.key) (stride : Nat)
+    (kbytes : V → Nat) (vals : List V) (hs : isSorted cfg vals = true) :
+    (seekSegs cfg stride kbytes vals).flatMap (·.2) = vals ∧
+    OffsetsOk 0 (seekSegs cfg stride kbytes vals) ∧
+    ∀ p ∈ seekSegs cfg stride kbytes vals, ∀ v ∈ p.2,
+      cfg.kle p.1.min (cfg.key v) = true ∧ cfg.kle (cfg.key v) p.1.max = true :=
+  seek_cover cfg L hk stride kbytes vals hs
 
 omit [DecidableEq V] in
 /-- **scan_sorted** (partial: one partition).  If every object of a partition holds its values
